@@ -11,6 +11,21 @@ CHECKS = {
    note="Trusted: CBMC+MiniSat, extractor rule list (must-fire counts, native fidelity run each time), isa_decode_prefix transcribed from hexb.pdf, "
         "ostream::put / strtoul stubs, gcc's implementation-defined int conversions. Lexer tokenisation is not under contract.",
    technique="CBMC function + loop contracts (goto-instrument --dfcc) on mechanically extracted C; counterexample replay on real hexasm"),
+ "C02": dict(cat="proof", design="DESIGN.md §4 C02",
+   text="Hoare triple for one iteration of hexsim's run() loop (body, syscall, HexSimIO extracted mechanically each run) against isa_step transcribed from "
+        "hexb.pdf: for all 2^128 register states, all memory contents, all defined instruction bytes, in-range addresses: registers, stored word + memory "
+        "frame (ghost index), running/exit value, I/O event, lazy file-open discipline, connected[] frame; plus run()'s loop condition/return. Loop-free, so "
+        "the CBMC result is complete for one step; whole runs follow by induction over steps (paper glue).",
+   note="Trusted: CBMC+MiniSat, extractor rules (must-fire counts + native fidelity run real Processor vs extracted step vs isa_step each time), isa_step "
+        "transcription, iostream stubs. Tracing off / truncateInputs on (defaults); tracing covered by C12.",
+   technique="CBMC contract harness (pre/post + frame via ghost index) on mechanically extracted C vs executable ISA spec; counterexample replay on real hexsim::Processor"),
+ "C12": dict(cat="proof", design="DESIGN.md §4 C12",
+   text="2-safety by sequential self-composition: from two arbitrary host states (every member and the whole 200000-word array havoced) the extracted constructor "
+        "initialiser list + load() leave all fields a run can read equal, image words loaded and the rest zero (symbolic image length); the C02 step contract "
+        "re-proved with tracing on and the real trace()/traceSyscall(); dfcc-enforced assigns clauses show trace functions write only the ghost text log; run() returns exitCode.",
+   note="Trusted: CBMC+MiniSat, extractor rules, FILE_* stubs for ifstream, EV_FMT/EV_ARG abstraction of boost::format rendering, lookupSymbol replaced by its contract. "
+        "Assumes the header's image length fits memory and is present in the file. Native stage builds the real Processor over dirty/clean storage.",
+   technique="CBMC contracts: self-composition harness + dfcc assigns enforcement on mechanically extracted C; native confirmation on real hexsim::Processor"),
 }
 NA = {
  "C01": "compiler correctness over all X programs: needs an X semantics and a simulation proof over 3200 lines of STL C++ that CBMC cannot parse; no per-function contract expresses it (DESIGN §5)",
@@ -21,12 +36,10 @@ NA = {
  "C14": "process-level exit status / files on disk of four main()s, hinging on C++ exception propagation and overload resolution; outside CBMC's reach (DESIGN §5)",
 }
 PENDING = {
- "C02": "claimed by design (DESIGN §4); check not built yet in this round",
  "C03": "claimed by design (DESIGN §4); check not built yet in this round",
  "C05": "claimed by design (DESIGN §4); check not built yet in this round",
  "C06": "claimed by design (DESIGN §4); check not built yet in this round",
  "C07": "claimed by design (DESIGN §4); check not built yet in this round",
- "C12": "claimed by design (DESIGN §4); check not built yet in this round",
  "C13": "claimed by design (DESIGN §4); check not built yet in this round",
  "C15": "claimed by design (DESIGN §4); check not built yet in this round",
  "C16": "claimed by design (DESIGN §4); check not built yet in this round",
